@@ -562,10 +562,11 @@ def _driver_check(pid, tier, seed, runs, level="model_checking", rule="", assump
 def check_C16(tier, seed):
     runs = [{"driver": "orderdrv", "args": lambda tr: [tr], "spec": "OrderTrace.tla", "cfg": "OrderTrace.cfg", "label": "order"}]
     return _driver_check("C16", tier, seed, runs, exhaustive=True,
-                         rule="all 192 events over t in {0,1} x anti x type in {0,1,65534} x size in {0,1,2,32,33,40} x 3 byte patterns "
-                              "(first/last byte differ; last byte of 33/40-byte payloads lies beyond the 32-byte base area): every ordered pair "
-                              "evaluated by the real msg_is_before and q_elem_is_before with all non-content fields varied (one trace line per row of 192 "
-                              "pairs); TLC evaluates irreflexivity, asymmetry, transitivity and transitivity of incomparability over all triples",
+                         rule="all 300 events over t in {0,1} x anti x type in {0,1,65534} x size in {0,1,32,33,40} x up to 7 byte patterns "
+                              "(first/last byte larger or smaller, head larger with tail smaller and vice versa; the last byte of 33/40-byte payloads lies beyond "
+                              "the 32-byte base area): every ordered pair evaluated by the real msg_is_before and q_elem_is_before with all non-content fields "
+                              "varied (one trace line per row of 300 pairs); TLC evaluates irreflexivity, asymmetry, transitivity and transitivity of incomparability "
+                              "over all triples of the table of the code",
                          assumptions=["domain is finite; payload bytes restricted to 3 patterns per size"])
 
 
@@ -574,15 +575,25 @@ def check_C14(tier, seed):
     nchunks = 4 if tier == "quick" else 16
     runs = [{"driver": "partdrv", "args": (lambda i: (lambda tr: [tr, b[0], b[1], b[2], nchunks, i]))(i), "spec": "PartitionTrace.tla",
              "cfg": "PartitionTrace.cfg", "label": "part%d" % i} for i in range(nchunks)]
-    mc = [("PartitionMC.tla", "PartitionMC.cfg" if tier == "quick" else "PartitionMC_big.cfg",
-           "C14 on the specification for every triple up to the bound", {"workers": 1, "timeout": 1500})]
-    return _driver_check("C14", tier, seed, runs, exhaustive=True, mc=mc,
-                         rule="every (LPs <= %d, ranks <= %d, threads <= %d) triple, every rank and every worker: the real lp_global_init/lp_init/lp_fini are run; "
-                              "one trace line per (triple, rank) with the ranges claimed, what an observer of the dispatcher saw (who initialises/finalises "
-                              "which LP) and the tables of lid_to_nid/lid_to_rid; ranks with no LP and more threads than LPs included; C14 is checked on "
-                              "the tables themselves, equality with Partition.tla only counted (divergences_from_reference_spec)" % b,
-                         assumptions=["ownership in running systems (LP_INIT/execute/LP_FINI by the owner, routing of every event) is checked "
-                                      "by the C14-labelled checks of TimeWarpTrace in every system-level run"])
+    c = syscamp.Campaign("C14", tier, seed, own_ids=["C14"])
+    try:
+        c.build(dist=True)
+        c.mc_phase("PartitionMC.tla", "PartitionMC.cfg" if tier == "quick" else "PartitionMC_big.cfg",
+                   "C14 on the specification for every triple up to the bound", workers=1, timeout=1500)
+        c.driver_phase(runs)
+        # the users of the routing functions inside the running system (ScheduleNewEvent's local/remote decision, msg_queue_insert's queue
+        # selection, LP_INIT / execution / LP_FINI by the owner): the C14-labelled checks of TimeWarp.tla in multi-rank and single-node runs
+        em = lambda r: {"ranks": r.choice([2, 2, 3]), "threads": r.choice([1, 2, 3]), "net": r.choice([0, 1]), "batch": r.choice([1, 2]), "period": r.choice([0, 50])}
+        c.run(_models(tier, seed + 20, ["fanout", "mixed", "ties", "zerodelay"], 3, 12), 4 if tier == "quick" else 10, emphasis=em)
+        em1 = lambda r: {"threads": r.choice([2, 3, 4, 6, 8])}
+        c.run(_models(tier, seed + 30, ["fanout", "mixed"], 2, 8), 3 if tier == "quick" else 8, emphasis=em1)
+        return c.finish(rule="every (LPs <= %d, ranks <= %d, threads <= %d) triple, every rank and every worker: the real lp_global_init/lp_init/lp_fini are run; "
+                             "one trace line per (triple, rank) with the ranges claimed, what an observer of the dispatcher saw (who initialises/finalises "
+                             "which LP) and the tables of lid_to_nid/lid_to_rid; ranks with no LP and more threads than LPs included; C14 is checked on "
+                             "the tables themselves, equality with Partition.tla only counted; plus multi-rank and single-node system runs (routing of "
+                             "every event, ownership of every execution)" % b)
+    finally:
+        c.close()
 
 
 def check_C12(tier, seed):
